@@ -1,6 +1,6 @@
-def replay_pack(tags, lengths, encoding):
+def replay_pack(tags, lengths, encoding, values=None):
     from cardutil import iso8583
-    vals = [''.join(chr(48 + (i * 3 + j) % 10) for j in range(n)) for i, n in enumerate(lengths)]   # digits: look like headers
+    vals = values or [''.join(chr(48 + (i * 3 + j) % 10) for j in range(n)) for i, n in enumerate(lengths)]   # digits: look like headers
     msg = {'MTI': '1240'}
     for t, v in zip(tags, vals):
         msg['PDS' + t] = v
